@@ -17,15 +17,12 @@ from .common import WB, CORE, STORE
 MUTATORS = ('insert_plain', 'insert_cas', 'insert', 'delete', 'delete_matches', 'merge')
 WRITE_FNS = ('set', 'cset', 'delete', 'internal_pdelete', 'import')
 
-_cache = {}
-
-
 def fallibility(prog):
-    crate = prog.crate(WB)
-    key = id(crate)
-    if key not in _cache:
-        _cache[key] = Fallibility(crate)
-    return _cache[key]
+    # cached on the Program object itself (one Program per fact directory; a module-level cache would leak between the
+    # mutants of a self-test run)
+    if getattr(prog, '_fallibility', None) is None:
+        prog._fallibility = Fallibility(prog.crate(WB))
+    return prog._fallibility
 
 
 def classify_core(fall):
